@@ -58,20 +58,69 @@ PROPS['C01'] = {
     'assumptions': ['sequentially consistent interleavings', 'one writer and one reader, as the API requires'],
 }
 
+REAL_BLACKBOX = ['lib/log.c', 'lib/log_blackbox.c', 'lib/log_format.c', 'lib/log_dcs.c', 'lib/ringbuffer.c', 'lib/ringbuffer_helper.c',
+                 'lib/unix.c (real /dev/shm files, real circular mmap)', 'lib/array.c', 'lib/util.c',
+                 'kernel tmpfs file holding the dump (open/read/write/fstat/lseek/close reach it through the libc seam)', 'glibc vsnprintf / localtime / strftime']
+STUB_BLACKBOX = ['realtime clock (virtual: timestamps are seeded)', 'outcome of the dump\'s write() calls and the printer\'s read() calls (fault sites of the seam)',
+                 'the fixed shm name qb-create_from_file-* (rewritten per worker process)', 'syslog target (disabled)']
+
 PROPS['C11'] = {
-    'parts': [{'harness': 'ring_coarse', 'chunk': 400}],
+    'parts': [{'harness': 'ring_coarse', 'chunk': 400, 'share': 1.0}, {'harness': 'blackbox', 'chunk': 100, 'share': 1.0}],
     'quick_s': 30, 'thorough_s': 600,
     'level_quick': 'exploration', 'level_thorough': 'exploration',
-    'rule': 'one evaluation = one seeded history on a fresh overwrite ring (writes of tiny to near-capacity chunks, single reads and '
+    'rule': 'part ring_coarse: one evaluation = one seeded history on a fresh overwrite ring (writes of tiny to near-capacity chunks, single reads and '
             'full drains placed at seeded points between operations); the drained sequence must be a suffix of the written one, '
             'byte-identical, at least as long as the number of newest chunks that fit in S at 16 bytes overhead each; '
-            'non-trivial = at least one write and one read-back; distinct = distinct (operation, argument, outcome) hash',
-    'level_text': 'seeded exploration of overwrite-ring histories and dump instants against a suffix reference model on the real ring',
-    'level_note': 'dump/read-back instants are between operations only (the property does not promise mid-operation dumps); trusts kernel tmpfs/mmap',
-    'technique': 'deterministic simulation (seeded histories with the read-back/dump instant chosen by the scheduler, suffix reference model, ddmin replay)',
+            'non-trivial = at least one write and one read-back; distinct = distinct (operation, argument, outcome) hash. '
+            'part blackbox: one evaluation = one seeded logging program inside one simulator task (blackbox of 1024..70000 bytes, seeded line length, '
+            '1..260 log calls with the serial in the line number and the text, seeded priorities / function names / tags / formats / arguments / '
+            'virtual timestamps), qb_log_blackbox_write_to_file at one or two seeded instants between two log calls (no fault injected), '
+            'qb_log_blackbox_print_from_file with stdout captured; the printed records must be an unbroken ascending run of serials ending with the '
+            'last one logged before that dump; non-trivial = at least two records dumped, printed and compared; distinct = distinct hash of the '
+            '(operation, argument, outcome) sequence',
+    'level_text': 'seeded exploration of overwrite-ring histories and dump instants against a suffix reference model on the real ring, and of '
+                  'logging histories / dump instants on the real logging blackbox (real log.c, log_blackbox.c, log_format.c, ring and dump file) '
+                  'against the list of records logged before the dump',
+    'level_note': 'dump/read-back instants are between operations only (the property does not promise mid-operation dumps); trusts kernel tmpfs/mmap; '
+                  'blackbox part: libqb\'s own internal messages (tag bit 31) share the blackbox and are skipped when the run of serials is judged; '
+                  'how many records must be retained is not judged (only: at least the newest, and no gap)',
+    'technique': 'deterministic simulation (seeded histories with the read-back/dump instant chosen by the scheduler, suffix reference model, ddmin replay); '
+                 'the blackbox part runs inside a simulator task with the libc seam active and no fault enabled (the fault-free baseline of C15)',
     'design_ref': 'DESIGN.md 4/C11',
-    'real': REAL_RING, 'stub': ['none'],
-    'assumptions': ['read-back happens between logger/writer operations, never inside one'],
+    'real': REAL_RING + REAL_BLACKBOX[:4] + REAL_BLACKBOX[9:], 'stub': ['none (ring part)'] + STUB_BLACKBOX[:1] + STUB_BLACKBOX[2:],
+    'assumptions': ['read-back happens between logger/writer operations, never inside one',
+                    'single logging thread; line numbers below 65536 (the dynamic call-site table is indexed by line)'],
+}
+
+PROPS['C15'] = {
+    'parts': [{'harness': 'blackbox', 'chunk': 100}],
+    'quick_s': 40, 'thorough_s': 900,
+    'level_quick': 'exploration', 'level_thorough': 'exploration',
+    'rule': 'one evaluation = one seeded program for the logging blackbox inside one simulator task: blackbox size and line length, n log calls '
+            '(serials, priorities, function names of 1..200 chars, tags, 23+ formats, arguments, virtual timestamps), dump(s) at seeded instants, then '
+            'either nothing (round-trip class, 40% of runs) or a fault program (60%): the k-th write of the dump short / failing with ENOSPC or EIO / lost; '
+            'at rest: truncation to every length of the header region and seeded lengths beyond, "died after the k-th write", each ring header word set '
+            'to boundary values (0, 1, 2^32-1, size/4 +-1, word_size +-1, 2*word_size, file size, the other pointer, mid-chunk) with the header hash '
+            'recomputed, the new-format marker block, chunk length and magic words, per-record fields (line, tags, priority, fn_size, function NUL, '
+            'timestamp, msg_len), conversions planted in the stored format string, 1..32 random byte flips, appended bytes; files that never were a dump '
+            '(empty, 1..64 bytes, up to 300 kB, random / constant / consistent header over random data); the k-th read of the printer short or failing '
+            'with EINTR / EIO; then qb_log_blackbox_print_from_file with stdout captured; non-trivial = at least two records logged, dumped, printed and '
+            'compared field by field, or a damaged file printed to completion; distinct = distinct hash of the (operation, argument, outcome) sequence',
+    'level_text': 'seeded exploration: fault-free runs compare every printed record with the priority name, function, line, tags, timestamp (to the '
+                  'millisecond, as printed) and text it was logged with; fault runs inject storage faults through the libc seam and at-rest damage with '
+                  'recomputed header hash and require only that the printer returns (any code), with no crash / assert / ASan report, within a step '
+                  'bound, leaving no /dev/shm/qb-create_from_file-* behind; samples the space, does not enumerate it',
+    'level_note': 'records printed from a damaged file are not compared with anything; a text whose serialized form does not fit the line length may be '
+                  'printed as the library\'s "too long" notice or cut; one trailing newline may be dropped (as every libqb target does); the extended-'
+                  'information marker is expected as "|"; the mmap region of the re-created ring is not ASan-instrumented (out-of-range indices show up '
+                  'as SIGSEGV or not at all); posix_fallocate above 64 MiB is refused by the seam so that a lying word_size cannot exhaust memory',
+    'technique': 'deterministic simulation with storage-fault injection at the file seam (short / failing / lost writes, short / failing reads as explicit '
+                 '(task, kind, n-th call) fault records), crash-after-k-th-write and at-rest corruption of the durable state, virtual clock, '
+                 'record-list reference model, ASan, ddmin replay',
+    'design_ref': 'DESIGN.md 4/C15',
+    'real': REAL_BLACKBOX, 'stub': STUB_BLACKBOX,
+    'assumptions': ['single logging thread; dump and print happen between log calls',
+                    'line numbers below 65536; priorities 0..8; tags without bit 31 (reserved for libqb\'s own messages)'],
 }
 
 REAL_LOOP = ['lib/loop.c', 'lib/loop_job.c', 'lib/loop_timerlist.c', 'include/tlist.h', 'lib/loop_poll.c', 'lib/loop_poll_epoll.c',
